@@ -3,9 +3,10 @@
 //   branches (hand-made WiredFn over static nodes)
 //        key 0: x + 1 (stateless)        key 1: running sum of x (State)
 //        key 2: self-scheduling: x on a tick of x, x + 100*n on its n-th own wake-up one cycle later
-//        default (if DEFAULTS): key-consuming  key*1000 + x
+//        default (if DEFAULTS): key-consuming, stateful  key*1000 + x + 1000000*(evaluations of this instance so far);
+//        two unmatched keys (3 and 4) both fall to it: a change between them must still give a fresh instance
 //   enumerated: reload_on_ticked on/off, default branch present/absent, and per cycle: the key source
-//               {does not tick, ticks 0, 1, 2, 3 (3 = unmatched / default)} x {x ticks, x does not tick}
+//               {does not tick, ticks 0, 1, 2, 3, 4 (3 and 4 = unmatched / default)} x {x ticks, x does not tick}
 //   symbolic  : every value of x (full int64)
 //   model     : a fresh branch instance per selection (key change; every key tick when reloading)
 //   oracle    : after every engine cycle (clock-driven checker ranked below the switch node):
@@ -82,7 +83,7 @@ struct Model {
 bool ok_valid = true, ok_value = true, ok_ticks = true, ok_evals = true, ok_fresh = true, ok_notified = true;
 int n_switches = 0;
 bool r_back = false, r_same_cycle = false, r_dead_timer = false, r_reload_same = false, r_default = false, r_wake = false,
-     r_silent_select = false, r_same_key_no_reload = false;
+     r_silent_select = false, r_same_key_no_reload = false, r_default_to_default = false;
 bool visited[NB];
 
 inline Int cyc(DateTime now) { return (now - MIN_ST).count(); }
@@ -126,7 +127,8 @@ template <class Key> struct BKeyed {
         g_fresh_seen[3] = (n.get() == 0);
         g_evals[3]++;
         n.set(n.get() + 1);
-        out.set((Int)((U)KeyOps<Key>::code(key.value()) * 1000 + (U)x.value()));
+        // the value shows the instance's age: a default instance that survives a change between two unmatched keys is caught
+        out.set((Int)((U)KeyOps<Key>::code(key.value()) * 1000 + (U)x.value() + 1000000 * (U)(n.get() - 1)));
     }
 };
 
@@ -137,7 +139,7 @@ template <class Key> struct KeySrc {
     static void eval(NodeScheduler s, State<Int> n, Out<TS<Key>> out) {
         Int c = n.get();
         g_cur_cycle = c;
-        int a = verif_choice("key", (g_default || G.keyt == 1) ? 5 : 4);
+        int a = verif_choice("key", (g_default || G.keyt == 1) ? 6 : 4);   // 0 none, 1..3 keys 0..2, 4..5 unmatched keys 3, 4
         if (a > 0) { out.set(KeyOps<Key>::mk(a - 1)); g_key_tick = a - 1; }
         n.set(c + 1);
         if (c + 1 < NCYC) s.schedule(MIN_TD);
@@ -178,7 +180,7 @@ struct Obs {
 };
 
 int branch_for(int key) {
-    if (key >= 0 && key <= 2) return key;
+    if (key >= 0 && key <= 2) return key;   // keys 3 and 4 are unmatched: default branch or error
     return g_default ? 3 : -1;
 }
 
@@ -197,6 +199,7 @@ bool model_step(Int c, int exp_evals[NB], bool &exp_fresh) {
                 n_switches++;
                 if (M.pending >= c) r_dead_timer = true;
                 if (g_key_tick == M.cur_key) r_reload_same = true;
+                if (M.sel == 3 && b == 3 && g_key_tick != M.cur_key) r_default_to_default = true;
                 if (visited[b] && g_key_tick != M.cur_key) r_back = true;
                 if (g_x_tick) r_same_cycle = true;
             }
@@ -229,7 +232,7 @@ bool model_step(Int c, int exp_evals[NB], bool &exp_fresh) {
             else { M.wakes++; r_wake = true; }
             M.out = (Int)((U)M.x + 100 * (U)M.wakes);
             break;
-        default: M.out = (Int)((U)M.cur_key * 1000 + (U)M.x); break;
+        default: M.out = (Int)((U)M.cur_key * 1000 + (U)M.x + 1000000 * (U)(M.cnt - 1)); break;
     }
     M.out_valid = true;
     return true;
@@ -320,6 +323,7 @@ extern "C" int harness_main() {
     if (r_reload_same) verif_reach("reload_on_same_key");
     if (r_same_key_no_reload) verif_reach("same_key_tick_without_reload");
     if (r_default) verif_reach("default_branch_selected");
+    if (r_default_to_default) verif_reach("default_to_default_key_change");
     if (r_wake) verif_reach("branch_timer_fired");
     if (r_silent_select) verif_reach("selected_before_input_valid");
     verif_log("obs_runs", g_obs_runs);
